@@ -2,11 +2,17 @@ import Driver.Common
 import Driver.Dominance
 import Driver.Archive
 import Driver.Catchment
+import Driver.Suppa
+import Driver.Kirkpatrick
+import Driver.Anneal
 
 def main (args : List String) : IO UInt32 := do
   match args with
   | ["dominance"] => Driver.runPure Driver.Dominance.step; return 0
   | ["archive-ops"] => Driver.run [] Driver.Archive.step; return 0
+  | ["kirk-script"] => Driver.run none Driver.Kirkpatrick.step; return 0
+  | ["anneal-trace"] => Driver.run none Driver.Anneal.step; return 0
+  | ["suppa"] => Driver.run ({} : Driver.Suppa.St) Driver.Suppa.step; return 0
   | ["catchment"] => Driver.run ({} : Driver.Catchment.St) Driver.Catchment.step; return 0
   | _ =>
     IO.eprintln "usage: driver <suite>"
